@@ -44,6 +44,9 @@ def r1(ctx):
         if not ok:
             continue
         ctx.ob("R1", "release happens under the scheduler lock", under_lock(c) is not None, func=f, node=c, instance="release-under-lock")
+        ctx.ob("R1", "the release is awaited in place (not detached into a task)", isinstance(getattr(c, "_parent", None), ast.Await), func=f, node=c,
+               instance="release-awaited",
+               message="_free_resources is not awaited where the status changes: capacity is returned at an unknown later time (after waiters were woken)")
         # guarding tests between function entry and the call: conjunction of enclosing `if` tests
         conj = []
         node = c
@@ -156,6 +159,25 @@ def r2(ctx):
     for a in aug:
         ctx.ob("R2", "release uses a plain subtraction of the allocation hardware", isinstance(a.op, ast.Sub) and
                "job_allocation.hardware" in _hardware_sources(f, a.value), func=f, node=a, instance="release:aug")
+    # the reserved amount is updated on every path of an iteration, also when the storage probe fails
+    g = f.cfg
+    from ..cfg import ALL
+
+    snodes = [n.id for n in g.nodes.values() if n.kind == "stmt" and isinstance(n.ast, (ast.Assign, ast.AugAssign))
+              and root_attr(n.ast.targets[0] if isinstance(n.ast, ast.Assign) else n.ast.target) == "hardware_locations"]
+    tests = [n for n in g.nodes.values() if n.kind == "test" and "hardware_locations" in n.text(200) and isinstance(n.ast, ast.Compare) and isinstance(n.ast.ops[0], ast.In)]
+    iters = [n.id for n in g.nodes.values() if n.kind == "iter"]
+    probe = lambda n: "get_storage_usages" in n.text(600)  # noqa: E731
+    for t in tests:
+        esc = None
+        for b in g.real_succ(t.id, "t"):
+            if b in snodes:
+                continue
+            esc = esc or g.path(b, iters + [g.exit], avoid=snodes, kinds=ALL, exc_from=probe)
+        ctx.ob("R2", "the reservation is returned on every path of the iteration, also when the storage probe fails", esc is None, func=f, node=t.ast,
+               instance="release:all-paths",
+               message="a failing storage-usage probe (or another path) skips the update of hardware_locations: cores, memory and storage stay reserved",
+               witness=g.describe(esc) if esc else [])
     # the per-level rebinding uses the same binder as the reservation side
     res = p.func(f"{SCHED}._resolve_hardware_requirement")
     b1 = [c for c in f.calls() if isinstance(c.func, ast.Attribute) and c.func.attr == "bind_mount_point"]
@@ -216,10 +238,21 @@ def r3(ctx):
     ok2 = bool(clr) and not any(clr[0] in ast.walk(l) for l in loop)
     ctx.ob("R3", "ROLLBACK clears the allocation's locations after the loop", ok2, func=f, node=body, instance="rollback:clear")
     ctx.ob("R3", "ROLLBACK clean-up happens under the scheduler lock", under_lock(body) is not None, func=f, node=body, instance="rollback:lock")
+    # the release walks job_allocation.locations: it must not run after the clean-up emptied them
+    g = f.cfg
+    frees = [n.id for n in g.nodes.values() if any(isinstance(c.func, ast.Attribute) and c.func.attr == "_free_resources" for c in n.calls())]
+    cleans = [n.id for n in g.nodes.values() if any(
+        isinstance(c.func, ast.Attribute) and c.func.attr in ("clear", "remove", "discard") and
+        (unparse(c.func.value).endswith(".locations") or root_attr(c.func.value) == "location_allocations") for c in n.calls())]
+    ctx.require(bool(frees) and bool(cleans), "C11.R3: release / clean-up nodes not found")
+    bad = next((pth for c in cleans for pth in [g.path(c, frees)] if pth), None)
+    ctx.ob("R3", "the release runs before the ROLLBACK clean-up empties the allocation's locations", bad is None, func=f, node=body, instance="rollback:after-release",
+           message="the ROLLBACK clean-up precedes _free_resources, which iterates job_allocation.locations: a job rolled back while holding resources never returns them",
+           witness=g.describe(bad) if bad else [])
 
 
 RULES = [("R1", r1), ("R2", r2), ("R3", r3)]
-FLOORS = {"R1": 5, "R2": 5, "R3": 3}
+FLOORS = {"R1": 6, "R2": 6, "R3": 4}
 
 NS = f"{SCHED}.notify_status"
 VARIANTS = [
@@ -237,6 +270,11 @@ VARIANTS = [
       "self.hardware_locations[loc.name] - job_hardware + storage_usage", "self.hardware_locations[loc.name] + job_hardware + storage_usage", "R2", control=True),
     V("storage usage with cores", SFILE, f"{SCHED}._free_resources", "storage_usage = Hardware()", "storage_usage = Hardware(cores=1.0)", "R2"),
     V("release uses location hardware", SFILE, f"{SCHED}._free_resources", "job_hardware = job_allocation.hardware", "job_hardware = self.hardware_locations[job_allocation.locations[0].name]", "R2"),
+    V("rollback clean-up moved before the release", SFILE, NS,
+      "if status != previous_status and (previous_status == Status.RUNNING",
+      "if status == Status.ROLLBACK:\n                job_allocation.locations.clear()\n            if status != previous_status and (previous_status == Status.RUNNING", "R3"),
+    V("release detached into a task", SFILE, NS, "await self._free_resources(connector, job_allocation)", "asyncio.create_task(self._free_resources(connector, job_allocation))", "R1"),
+    V("probe failure skips the release", SFILE, f"{SCHED}._free_resources", "storage_usage = Hardware()", "continue", "R2"),
     V("rollback does not remove job", SFILE, NS, "self.location_allocations[loc.deployment][loc.name].jobs.remove(job_name)", "pass", "R3", control=True),
     V("rollback does not clear locations", SFILE, NS, "job_allocation.locations.clear()", "pass", "R3"),
     # benign
